@@ -88,6 +88,12 @@ class TunnelEndpoint(Endpoint):
         """
         self.endpoint.add_listener(listener)
 
+    def remove_listener(self, listener: EndpointListener) -> None:
+        """
+        Forward directly to the underlying endpoint.
+        """
+        self.endpoint.remove_listener(listener)
+
     def add_prefix_listener(self, listener: EndpointListener, prefix: bytes) -> None:
         """
         Forward directly to the underlying endpoint.
